@@ -2,7 +2,7 @@
    inv_tok is the structural invariant of the handle / session / session-object tables; it holds in every reachable
    state (C14_inv_tok_reachable).  Statements only. *)
 From Coq Require Import List NArith Bool.
-From SoftHSM Require Import Gen_Const Gen_Pure Defs Core AccessFacts StepFacts Invariants SessionSpec PinFacts HandleFacts TokenFacts.
+From SoftHSM Require Import Gen_Entry EntryModel Gen_Const Gen_Pure Defs Core AccessFacts StepFacts Invariants SessionSpec PinFacts HandleFacts TokenFacts.
 Import ListNotations.
 Local Open Scope N_scope.
 
@@ -69,3 +69,12 @@ Theorem C14_restart_keeps_tokens : forall (s : state) (b : bool),
   st_init (restart s b) = b.
 Proof. exact restart_view. Qed.
 Print Assumptions C14_restart_keeps_tokens.
+
+(* the model's C_InitToken decision is the code's: the step's return code equals the REGENERATED SoftHSM::C_InitToken applied to the
+   abstraction of the state (slot found, session on the slot or not, Slot::initToken answering the model's token-level verdict) *)
+Theorem C14_inittoken_model_is_code : forall (s : state) (t : tref) (tk : option N) (pin : option bytes) (label inner : N),
+  st_init s = true -> resolve s t = Some tk ->
+  (forall p, pin = Some p -> slot_inittoken_rv s tk p label = Some inner) ->
+  rv_of (snd (step s (OInitToken t pin label))) = Some (C_InitToken.app (inittoken_env s tk pin inner)).
+Proof. exact inittoken_model_is_code. Qed.
+Print Assumptions C14_inittoken_model_is_code.
